@@ -19,6 +19,8 @@ TIERS = {
 }
 CLASSES = ['configurable', 'denylisted', 'not-allowlisted', 'unknown-no-varkw', 'unknown-varkw', 'varargs-name', 'unknown-configurable', 'method-bare']
 APIS = ['str', 'tuple', 'list', 'text', 'block', 'block-multi', 'files_and_bindings', 'hook']
+# further workloads for the property's online monitor (vf/online.py): the repository's tests and other checks' generated cases
+ONLINE = {'which': ['bind'], 'foreign': ['C01', 'C05', 'C07', 'C10', 'C12', 'C13', 'C20'], 'n': {'quick': 40, 'thorough': 600}}
 REQUIRED_BUCKETS = (['class:' + c for c in CLASSES] + ['api:' + a for a in APIS] + ['shape:fn', 'shape:init', 'shape:new', 'shape:method',
                     'verdict:accepted', 'verdict:rejected', 'scoped', 'accepted-then-injected', 'rejected-then-not-injected', 'varkw-with-denylist',
                     'special:reregister-with-denylist', 'special:reregister-interactive', 'special:decorated-function', 'special:two-hooks-second-rejected', 'special:dynamic-method-keeps-class-lists', 'special:list-given-as-iterator'])
